@@ -7,7 +7,7 @@ from props.C04 import par, names_jobs, report_trace_rejections, share
 LEVEL = "model_checking"
 META = {
     "technique": "TLA+ spec Arpa.tla (DecodePrefix and Extract as pure operators over label/character sequences, numeric meaning computed from the digits) model-checked by TLC over a bounded family of names; every enumerated name replayed on PrefixFromReversedAddr / ExtractReversedAddr with the spec-predicted prefix or rejection; seeded random prefixes and edited names recorded from the Go code and trace-validated by TLC",
-    "level_text": "TLC enumerates every label sequence up to 4 labels over a table of octet / leading-zero / overflow / signed / nibble / multi-character / empty labels (5 over a reduced table), long nibble runs of 28..34 labels with every position corrupted by every table label and every <=4-label body in front of a 30-run, before 16 suffix shapes per family (true suffix in three case spellings, xin-addr.arpa / xip6.arpa, missing or wrong TLD, suffix not last, U+0130 / U+0131 / U+212A look-alikes, the other family's suffix, none), with 0/1/2 trailing dots and 15 kinds of leading labels (junk, octet-like, empty, 63/64-byte, total length 253/254, non-ASCII, an embedded second ARPA name). On each name it checks the lemmas (host bits zero, a prefix name extracts to itself, extraction = longest decoding suffix, full names agree with DecodeAddr, case/one-dot invariance) and emits the predicted results; the Go harness replays every name on both functions (value, rejection, *AddrError, no panic) and cross-checks the statement's own relation between the two functions. 10^5-10^6 random prefixes and random edits are run in Go against the identity and that relation, a sample of the log is re-judged by TLC.",
+    "level_text": "TLC enumerates every label sequence up to 4 labels over a table of octet / leading-zero / overflow / signed / nibble / multi-character / empty labels (5 over a reduced table), long nibble runs of 28..34 labels with every position corrupted by every table label and every <=4-label body in front of a 30-run, before 16 suffix shapes per family (true suffix in three case spellings, xin-addr.arpa / xip6.arpa, missing or wrong TLD, suffix not last, U+0130 / U+0131 / U+212A look-alikes, the other family's suffix, none), with 0/1/2 trailing dots and 15 kinds of leading labels (junk, octet-like, empty, 63/64-byte, total length 253/254, non-ASCII, an embedded second ARPA name). On each name it checks the lemmas (host bits zero, a prefix name extracts to itself, extraction = longest decoding suffix, full names agree with DecodeAddr, case/one-dot invariance) and emits the predicted results; the Go harness replays every name on both functions (value, rejection, *AddrError, no panic) and cross-checks the statement's own relation between the two functions. The family also replaces each of the last labels by its ACE alias xn--<label>- (never an octet, nibble or suffix label), and contains a real IDN TLD with its ACE form and control-byte look-alikes of '-', '.', '6'. Single-byte substitution: for six canonical names (full, partial and root name of each family) every position x every byte value 0..255 goes through both functions, judged in Go by the statement's relations and, every one of them, by TLC's DecodePrefix / Extract on the logged observation. 10^5-10^6 random prefixes and random edits (incl. ACE wrapping of a label) are run in Go against the identity and that relation, a sample of the log is re-judged by TLC.",
     "level_note": "Bounded: the exhaustive part covers the label-sequence family, not all strings; other inputs are sampled. 'Valid domain name' is decided by netutil.ValidateDomainName (the model of it in Arpa.tla is cross-checked on every ASCII vector).",
 }
 
@@ -57,6 +57,8 @@ def run(ctx):
     ctx.evaluations += s3["calls"]
     ctx.distinct += s3["distinct_nontrivial"]
     ctx.extra["random_cases"] = s3["cases"]
+    ctx.extra["single_byte_substitution_inputs"] = s3["subst_inputs"]
+    ctx.extra["single_byte_substitution_accepts"] = s3["subst_accepts"]
     ctx.extra["trace_events_validated"] = n
     ctx.extra["random_edited_prefix_accepts"] = s3["edited_prefix_accepts"]
     ctx.extra["random_edited_extract_accepts"] = s3["edited_extract_accepts"]
